@@ -147,6 +147,7 @@ func main() {
 		r.Assume("type names and suffixes are pinned in the harness from the type documentation")
 		r.Exhaustive(true)
 		idx := 0
+		ring := ev.NewRing("GetType/Label/GetPrincipals", r.Seed, 23)
 		typesSeen := map[int]int{}
 		for fl := 0; fl < 16; fl++ {
 			for _, tp := range []int{-1, 0, 1, 2, 3, 4} {
@@ -183,6 +184,15 @@ func main() {
 							}) {
 								continue
 							}
+							// the three results are a function of the certificate alone: the same again later, and from several goroutines at once
+							evalAll := func() string {
+								return ev.Digest(func() string {
+									g := certutil.GetType(cert)
+									l, e := certutil.Label(cert)
+									return fmt.Sprintf("%d|%q|%v|%q", g, l, e != nil, certutil.GetPrincipals(append([]string(nil), prins...), g))
+								})
+							}
+							ring.Add(r, c, evalAll, fmt.Sprintf("%d|%q|%v|%q", got, label, lerr != nil, gp), cert.KeyId)
 							sigA := fmt.Sprintf("ff=%v,hw=%v,hl=%v,n=%v,tp=%d,opt=%d", a.FF, a.HW, a.Headless, a.Nonce, a.Touch, a.Opt)
 							if int(got) != want {
 								r.Violation(c, "type-mismatch:"+sigA, fmt.Sprintf("GetType=%d(%s) want %d(%s) for %+v", got, got, want, refName[want], a), rec)
@@ -240,6 +250,9 @@ func main() {
 			}
 		}
 		r.Extra("table_size", idx)
+		if r.Replay == nil {
+			ring.Stress(r, r.CaseAlways("stress", 0), 8, 3)
+		}
 		ts := map[string]int{}
 		for k, v := range typesSeen {
 			n := refName[k]
